@@ -431,3 +431,10 @@ theorem fold_stk_unchanged (blk : List Instr) (d : D) (h : blk.all (fun i => dec
     rw [ih _ h.2, execD_stk_unchanged _ _ h.1]
 
 end TJ.Asm
+
+namespace TJ.Asm
+theorem run_succ (p : Prog) (n : Nat) (c : Cfg) : run p (n + 1) c = run p n (step p c) := rfl
+theorem step_b (p : Prog) (d : D) (pc : Nat) (l : Nat) (h : p[pc]? = some (.b l)) :
+    step p ⟨d, pc, false⟩ = ⟨d, findLabel p l, false⟩ := by
+  simp only [step, h]; rfl
+end TJ.Asm
